@@ -80,9 +80,14 @@ def eval_case(pid, pl, res, case, obs, kf_class=None):
         elif pid == "C04":
             # the type's table, inherited slots included: one wrapper per callable slot, dispatching through that slot of the
             # type's own table accessor; the emitted table struct of a type with a block lists the slots in order
+            meths = {m["name"]: m for m in it.get("methods", [])}
+            # nothing is dispatched through a table but the callable slots of the type's own (declared or inherited) table
+            callable_slots = {s["name"] for s in t["table"] if not s["pad"] and not s["name"].startswith("_")}
+            stray = sorted(n for n, m in meths.items() if m["body"].get("k") == "vft" and n not in callable_slots)
+            if stray:
+                problems.append(f"{t['name']}: wrappers {stray} dispatch through a vftable although they are no slots of the type's table")
             if not t["table"]:
                 continue
-            meths = {m["name"]: m for m in it.get("methods", [])}
             for s in t["table"]:
                 if s["pad"] or s["name"].startswith("_"):
                     continue
